@@ -98,11 +98,15 @@ def gen_case(rng, i):
         ext = np.sum(np.abs(Mt) * rng_, axis=1)
         c_lo = 1.0 / ext.min()
         c_hi = min(100.0 / ext.max(), 100.0 / max(float(np.max(np.abs(Bm))), 1e-9))
+        if op in ("membership", "range"):
+            # C15's regime for the geometric answers is "captures >= 1, bounds in [0.05, 10]": no upper limit on captures
+            c_hi = 1e6 / ext.max()
         if s_lo >= s_hi or c_lo >= c_hi:
             sfac, cfac = 1.0, 1.0
         else:
-            sfac = float(np.exp(rng.uniform(np.log(s_lo), np.log(s_hi))))
-            cfac = float(np.exp(rng.uniform(np.log(c_lo), np.log(c_hi))))
+            # boundary-seeking: the corners of the admissible unit changes as often as its interior
+            pick = lambda lo, hi: float([lo * 1.0001, hi * 0.9999, np.exp(rng.uniform(np.log(lo), np.log(hi)))][rng.integers(3)])
+            sfac, cfac = pick(s_lo, s_hi), pick(c_lo, c_hi)
     s_.update({"B": Bm, "op": op, "s": sfac, "c": cfac})
     return s_
 
@@ -129,6 +133,12 @@ def chk_case(inp, c):
     ok1, _ = gen.regime_report(inp["A"], inp["lb"], inp["ub"], inp["K"], inp["baseline"], inp["B"])
     ok2, _ = gen.regime_report(t["A"], t["lb"], t["ub"], t["K"], t["baseline"], t["B"])
     asserted = ok1 and ok2
+    if op in ("membership", "range"):
+        # geometric answers involve no solver tolerance: asserted whenever both twins have captures >= 1 and bounds in
+        # [0.05, 10] (C15's own regime), without C04's upper limit of 100 capture units
+        r1 = gen.regime_report(inp["A"], inp["lb"], inp["ub"], inp["K"], inp["baseline"])[1]
+        r2 = gen.regime_report(t["A"], t["lb"], t["ub"], t["K"], t["baseline"])[1]
+        asserted = all(r["bounds_ok"] and r["cond_ok"] and r["extent"][0] >= 1 for r in (r1, r2))
     decade = f"log10s={int(np.round(np.log10(s)))},log10c={int(np.round(np.log10(cc)))}"
     c.cell("op=" + op, "asserted" if asserted else "recorded-only", *gen.sys_cells(inp))
     Mt, c0, lbv, ubv = gen.sys_arrays(inp)
